@@ -73,6 +73,8 @@ class Ctx:
         self.paths = 0
         self.functions: set[str] = set()
         self.rules: dict[str, str] = {}
+        self.exhaustive: bool | None = None  # set True by a module only when a finite space was enumerated completely
+        self.bounds: list[str] = []  # stated bounds (loop unrolling, sample domains)
 
     # -- declaring rules -------------------------------------------------------------------------
     def rule(self, rid: str, text: str) -> None:
@@ -182,9 +184,11 @@ def write_evidence(ctx: Ctx, wall: float, violations: int, extra: dict | None = 
         "functions_analysed": sorted(ctx.functions),
         "samples": ctx.samples or [{"rule": k, "instance": v[0]} for k, v in list(ctx.instances.items())[:6] if v],
         "trusted_base": ["CPython ast"] + ctx.trusted,
-        "exhaustive": True,
         "notes": ctx.notes,
+        "bounds": ctx.bounds,
     }
+    if ctx.exhaustive:
+        cov["exhaustive"] = True
     if not cov["samples"]:
         cov["samples"] = ["(no instance)"]
     if extra:
